@@ -50,7 +50,7 @@ def run (op : String) (j : Json) : Option Json :=
       | some o =>
         let (sp', a) := specStep sp o
         let (me', b) := memStep me o
-        let (sec', c) := objStep true sec o
+        let (sec', c) := objStep false sec o
         let (cm', d) := objStep false cm o
         ((sp', me', sec', cm'), outs ++ [Json.mkObj [("spec", ofOut a), ("mem", ofOut b), ("secrets", ofOut c), ("configmaps", ofOut d)]])
     let (_, outs) := ops.foldl step (([], [], [], []), [])
